@@ -165,6 +165,8 @@ pub fn validate_and_iter<T>(
         let (head, tail) = buffer.split_at_mut(chunk_size);
         buffer = tail;
 
+        #[cfg(rustfft_verif)]
+        crate::verif_hooks::sched_point(1);
         chunk_fn(head, scratch);
     }
 
@@ -190,10 +192,14 @@ pub fn validate_and_iter_unroll2x<T>(
         let (head, tail) = buffer.split_at_mut(chunk_size * 2);
         buffer = tail;
 
+        #[cfg(rustfft_verif)]
+        crate::verif_hooks::sched_point(2);
         chunk2x_fn(head);
     }
 
     if buffer.len() == chunk_size {
+        #[cfg(rustfft_verif)]
+        crate::verif_hooks::sched_point(3);
         chunk_fn(buffer);
         Ok(())
     } else if buffer.len() == 0 {
@@ -234,6 +240,8 @@ pub fn validate_and_zip<T>(
         let (head2, tail2) = buffer2.split_at_mut(chunk_size);
         buffer2 = tail2;
 
+        #[cfg(rustfft_verif)]
+        crate::verif_hooks::sched_point(4);
         chunk_fn(head1, head2, scratch);
     }
 
@@ -270,11 +278,15 @@ pub fn validate_and_zip_unroll2x<T>(
         let (head2, tail2) = buffer2.split_at_mut(chunk_size * 2);
         buffer2 = tail2;
 
+        #[cfg(rustfft_verif)]
+        crate::verif_hooks::sched_point(5);
         chunk2x_fn(head1, head2);
     }
 
     // We have a remainder if the 2 chunks were uneven to start with, or if there's still data in the buffers -- in which case we want to indicate to the caller that there was an unwanted remainder
     if buffer1.len() == chunk_size {
+        #[cfg(rustfft_verif)]
+        crate::verif_hooks::sched_point(6);
         chunk_fn(buffer1, buffer2);
         Ok(())
     } else if buffer1.len() == 0 {
@@ -315,6 +327,8 @@ pub fn validate_and_zip_mut<T>(
         let (head2, tail2) = buffer2.split_at_mut(chunk_size);
         buffer2 = tail2;
 
+        #[cfg(rustfft_verif)]
+        crate::verif_hooks::sched_point(4);
         chunk_fn(head1, head2, scratch);
     }
 
@@ -351,11 +365,15 @@ pub fn validate_and_zip_mut_unroll2x<T>(
         let (head2, tail2) = buffer2.split_at_mut(chunk_size * 2);
         buffer2 = tail2;
 
+        #[cfg(rustfft_verif)]
+        crate::verif_hooks::sched_point(5);
         chunk2x_fn(head1, head2);
     }
 
     // We have a remainder if the 2 chunks were uneven to start with, or if there's still data in the buffers -- in which case we want to indicate to the caller that there was an unwanted remainder
     if buffer1.len() == chunk_size {
+        #[cfg(rustfft_verif)]
+        crate::verif_hooks::sched_point(6);
         chunk_fn(buffer1, buffer2);
         Ok(())
     } else if buffer1.len() == 0 {
